@@ -36,7 +36,7 @@ import (
 func TestCheck(t *testing.T) {
 	vkit.Run(t, "C18", "exploration", func(r *vkit.R) {
 		r.Rule("histories on the real rate-limiter server (scripted leader of all of 1-3 shards, or - every 4th history - of only some of 2-4 shards with the rest led by another server and condition names hashing to any shard; local store, 1-2 upstreams each with a globalAllocate and a globalCount max-in-flight schema): " +
-			"2-7 instances join (heartbeat), report (allocate), acquire (count, via DoAcquire), go silent (last heartbeat set 4 s back; timeout 3 s), come back with the same or a new identity; " +
+			"2-7 instances (identities gw-N, or in every 3rd history ip:port / IPv6 / dotted / upper-case ones and pairs differing only by ':' vs '-') join (heartbeat), report (allocate), acquire (count, via DoAcquire), go silent (last heartbeat set 4 s back; timeout 3 s), come back with the same or a new identity; " +
 			"the two periodic cleanup passes are stepped by hand in any order and number (the asynchronous part of the timeout pass is awaited by polling). " +
 			"Oracle: dead = silent through a timeout pass and a later unknown-condition pass => no condition, no flow-control count, totals exact, a survivor can take the freed count, " +
 			"recorded allocated sum = sum of survivors; live (fresh heartbeat at every pass) => conditions and counts untouched by every pass. " +
@@ -80,6 +80,8 @@ func TestCheck(t *testing.T) {
 		r.Require(r.Counter("return_overlaps_achieved") >= int64(r.N(50, 500)) && r.Counter("return_overlaps_confirmed_by_goroutine_dump") >= 10, "too few returns actually overlapped the clean-up goroutine")
 		r.Require(r.Counter("histories_leading_some_shards_only") >= 100 && r.Counter("reclaimed_conditions_whose_name_hashes_to_a_shard_not_led") >= 50,
 			"too few dead instances reclaimed on a server that leads only some shards, with condition names hashing to the other shards")
+		r.Require(r.Counter("histories_with_realistic_identities") >= 100 && r.Counter("instances_with_colon_in_identity") >= 300 && r.Counter("identity_pairs_differing_by_colon_vs_dash") >= 50,
+			"too few instances with realistic identities (ip:port, IPv6, pairs differing by ':' vs '-')")
 		r.Require(r.Counter("histories") >= 100, "too few histories")
 		r.Require(r.Counter("reclaimed_with_conditions") >= 100 && r.Counter("reclaimed_with_counts") >= 100, "too few dead instances with recorded state were reclaimed")
 		r.Require(r.Counter("reclaimed_first_report_only") >= 20, "the empty-label (first report only) case was not exercised")
@@ -98,14 +100,15 @@ func keyUp(key string) string     { return key[:strings.LastIndex(key, "/")] }
 func keySchema(key string) string { return key[strings.LastIndex(key, "/")+1:] }
 
 type inst struct {
-	id       string
-	live     bool             // sends heartbeats
-	expired  bool             // silent through a timeout pass
-	quota    map[string]int32 // upstream -> last allocate answer
-	reports  map[string]int   // upstream -> number of reports since its record was (re)created
-	count    map[string]int32 // upstream -> last accepted in-flight count
-	reqID    int64
-	silentAt time.Time // real-time variant: when it stopped heartbeating
+	id          string
+	live        bool             // sends heartbeats
+	expired     bool             // silent through a timeout pass
+	quota       map[string]int32 // upstream -> last allocate answer
+	reports     map[string]int   // upstream -> number of reports since its record was (re)created
+	count       map[string]int32 // upstream -> last accepted in-flight count
+	reqID       int64
+	acquireOnly bool      // second of an identity pair that differs only by ':' vs '-' (see identity)
+	silentAt    time.Time // real-time variant: when it stopped heartbeating
 }
 
 type history struct {
@@ -124,6 +127,8 @@ type history struct {
 	nontrivial bool
 	led        map[int]bool // shards this server leads (all of them unless partial)
 	partial    bool         // the other shards are led by "other-server"
+	realIDs    bool         // realistic identities (see identity)
+	twin       string       // identity the next joining instance takes
 	realtime   bool         // silences are real (no heartbeat for > 3 s of wall time) instead of a back-dated heartbeat
 }
 
@@ -148,6 +153,10 @@ func (h *history) violate(sig, what string) {
 func newHistory(r *vkit.R, g *vkit.Rand, i int) *history {
 	h := &history{r: r, g: g, allocMax: map[string]int32{}, countMax: map[string]int32{}, cnts: map[string][]string{}, tbs: map[string]int{}}
 	h.led = map[int]bool{}
+	h.realIDs = i%3 == 1
+	if h.realIDs {
+		r.Count("histories_with_realistic_identities", 1)
+	}
 	if i%4 == 3 {
 		// several limiter servers: this one leads only some of the shards, "other-server" the rest. The upstreams used are of
 		// led shards; the NAMES of the instances' conditions (<upstream>.<instance>) hash to any shard, led or not.
@@ -231,9 +240,24 @@ type snapshot struct {
 }
 
 var (
-	debugRe  = regexp.MustCompile(`^name=(\S*) max=(-?\d+) count=(-?\d+) total=(-?\d+) details=(.*)$`)
-	detailRe = regexp.MustCompile(`\[([^:\]]+): (-?\d+)\]`)
+	debugRe = regexp.MustCompile(`^name=(\S*) max=(-?\d+) count=(-?\d+) total=(-?\d+) details=(.*)$`)
 )
+
+// parseDetails reads "[<instance>: <count>],[<instance>: <count>]" where the instance may itself contain ':', '[' and ']'
+// (ip:port and IPv6 identities): entries are separated by "],[", the count follows the LAST ": " of an entry.
+func parseDetails(d string) map[string]int64 {
+	out := map[string]int64{}
+	if len(d) < 2 {
+		return out
+	}
+	for _, e := range strings.Split(d[1:len(d)-1], "],[") {
+		if k := strings.LastIndex(e, ": "); k > 0 {
+			v, _ := strconv.ParseInt(e[k+2:], 10, 64)
+			out[e[:k]] = v
+		}
+	}
+	return out
+}
 
 func (h *history) snap() snapshot {
 	s := snapshot{cond: map[string]map[string]int32{}, count: map[string]map[string]int64{}, state: map[string]int64{}}
@@ -279,12 +303,11 @@ func (h *history) snap() snapshot {
 			if cnt != tot {
 				s.bad = fmt.Sprintf("%s: running total %d but per-instance counts sum to %d (%s)", key, cnt, tot, m[5])
 			}
-			for _, x := range detailRe.FindAllStringSubmatch(m[5], -1) {
-				v, _ := strconv.ParseInt(x[2], 10, 64)
-				if s.count[x[1]] == nil {
-					s.count[x[1]] = map[string]int64{}
+			for id, v := range parseDetails(m[5]) {
+				if s.count[id] == nil {
+					s.count[id] = map[string]int64{}
 				}
-				s.count[x[1]][key] = v
+				s.count[id][key] = v
 			}
 		}
 	}
@@ -327,9 +350,46 @@ func (h *history) foreignName(up, id string) bool {
 
 // ---- operations
 
-func (h *history) join() *inst {
-	w := &inst{id: fmt.Sprintf("gw-%d", h.nextID), live: true, quota: map[string]int32{}, reports: map[string]int{}, count: map[string]int32{}}
+// identity: plain gw-N, or (realIDs histories) what gateways really look like: ip:port and IPv6 prefixes, dots, dashes, upper
+// case; and pairs of DIFFERENT instances whose identities only differ by ':' vs '-' (the replacement the condition names
+// use). util.GenerateRateLimitConditionName maps both of such a pair to ONE condition name, so the second of a pair only
+// acquires (in-flight state is keyed by the raw identity) and does not send allocate reports - two instances overwriting
+// each other's condition is not what this check is about.
+func (h *history) identity() (id string, acquireOnly bool) {
+	n := h.nextID
 	h.nextID++
+	if !h.realIDs {
+		return fmt.Sprintf("gw-%d", n), false
+	}
+	if h.twin != "" {
+		id, h.twin = h.twin, ""
+		h.r.Count("identity_pairs_differing_by_colon_vs_dash", 1)
+		return id, true
+	}
+	switch h.g.Intn(8) {
+	case 0:
+		return fmt.Sprintf("10.0.%d.7:6443-ab%d", n, n), false
+	case 1:
+		return fmt.Sprintf("[::1]:6443-x%d", n), false
+	case 2:
+		return fmt.Sprintf("[fd00::%x]:6443-k8s", n+10), false
+	case 3:
+		return fmt.Sprintf("GW-Node.%d.Example", n), false
+	case 4:
+		return fmt.Sprintf("gw.%d-a_b", n), false
+	case 5, 6:
+		h.twin = fmt.Sprintf("node-%d-6443-r", n) // the next instance to join is its twin under ':' -> '-'
+		return fmt.Sprintf("node-%d:6443-r", n), false
+	}
+	return fmt.Sprintf("gw-%d", n), false
+}
+
+func (h *history) join() *inst {
+	id, acquireOnly := h.identity()
+	w := &inst{id: id, acquireOnly: acquireOnly, live: true, quota: map[string]int32{}, reports: map[string]int{}, count: map[string]int32{}}
+	if strings.Contains(id, ":") {
+		h.r.Count("instances_with_colon_in_identity", 1)
+	}
 	_ = h.srv.Limiter.Heartbeat(w.id)
 	h.insts = append(h.insts, w)
 	h.logf("join %s", w.id)
@@ -337,6 +397,11 @@ func (h *history) join() *inst {
 }
 
 func (h *history) report(w *inst, up string) {
+	if w.acquireOnly {
+		key := h.cnts[up][h.g.Intn(len(h.cnts[up]))]
+		h.acquire(w, key, int32(h.g.Range(0, int(h.countMax[key])/2+1)))
+		return
+	}
 	cond := &proxyv1alpha1.RateLimitCondition{
 		ObjectMeta: metav1.ObjectMeta{Name: util.GenerateRateLimitConditionName(up, w.id)},
 		Spec:       proxyv1alpha1.RateLimitSpec{UpstreamCluster: up, Instance: w.id},
